@@ -84,6 +84,78 @@ def worker_main(native_dir):
         m = re.search(r"returns (\d+)", str(e))
         return {"err": int(m.group(1)) if m else -1, "exc": type(e).__name__, "msg": str(e)[:120]}
 
+    def scribble(objs):
+        """overwrite, in place, everything an earlier call handed back to the caller"""
+        for o in objs:
+            try:
+                if hasattr(o, "iloc"):
+                    o.iloc[:, :] = -7
+                else:
+                    o[...] = -7
+            except Exception:
+                pass
+
+    def run_history(nrows, ncols, fdarr, steps):
+        """2-8 calls on ONE Catchment object (see gen_histories); one reply per step"""
+        import pickle
+        g0 = hg.Grid("fd", ncols=ncols, nrows=nrows, dtype=i64, nodata=-99)
+        g0.data = fdarr.copy()
+        c = hg.Catchment("c", g0)
+        out, last = [], []
+        for st in steps:
+            k = st[0]
+            try:
+                if k == "D":
+                    c.delineate_area(st[1], st[2], nval=st[3])
+                    a, f = c.idxcells_area, c.idxcells_area_filled
+                    out.append({"ok": a.tolist(), "filled": f.tolist()})
+                    last = [a, f]
+                elif k == "F":
+                    c.compute_flowpathlengths()
+                    t = c.flowpathlengths
+                    out.append({"ok": [[float(v) for v in row] for row in t.values.tolist()]})
+                    last = [t]
+                elif k == "S":
+                    c.flowdir.data.flat[st[1]] = st[2]
+                    out.append({})
+                elif k == "G":
+                    c.flowdir.data = np.array(st[1], dtype=i64).reshape(nrows, ncols)
+                    out.append({})
+                elif k == "O":
+                    g0.data.flat[st[1]] = st[2]          # the grid handed to the constructor: Catchment holds a clone
+                    out.append({})
+                elif k == "U":
+                    r = c.upstream(st[1])
+                    out.append({"ok": r.tolist()})
+                    last = [r]
+                elif k == "W":
+                    r = c.downstream(st[1])
+                    out.append({"ok": r.tolist()})
+                    last = [r]
+                elif k == "R":
+                    df = hg.delineate_river(c.flowdir, st[1], nval=st[2])
+                    out.append({"ok": [[float(v) for v in row]
+                                       for row in df[["idxcell", "dist", "dx", "dy", "x", "y"]].values.tolist()]})
+                    last = [df]
+                elif k == "K":
+                    old = c
+                    c = c.clone()
+                    old.flowdir.data[...] = 0            # the clone must not share the grid
+                    if old._idxcells_area is not None:
+                        old._idxcells_area[...] = -7
+                    out.append({})
+                elif k == "P":
+                    c = pickle.loads(pickle.dumps(c))
+                    out.append({})
+                elif k == "E":
+                    scribble(last)
+                    out.append({})
+                else:
+                    out.append({"err": -2, "msg": "unknown step"})
+            except Exception as e:
+                out.append(err_of(e))
+        return out
+
     def run_job(job):
         nrows, ncols, fd = job["g"]
         fdarr = np.array(fd, dtype=i64).reshape(nrows, ncols)
@@ -140,6 +212,8 @@ def worker_main(native_dir):
                     o = np.zeros((len(cells), 3), dtype=np.float64)
                     ierr = cg.delineate_flowpathlengths_in_catchment(outlet, hg.FLOWDIRCODE, fdarr, cells, o)
                     res.append({"err": int(ierr)} if ierr > 0 else {"ok": o.tolist()})
+                elif kind == "hist":
+                    res.append({"steps": run_history(nrows, ncols, fdarr, op[2])})
                 elif kind == "river" and api == "x":
                     start, nval, xll, yll, csz = op[2:7]
                     npoints = np.zeros(1, dtype=i64)
@@ -512,6 +586,67 @@ def add_grid_cases(cs, rng, nrows, ncols, fd, tag, api, full, py_share=0.0, outl
             cs.op(j, ["river", rapi, s, nval, xll, yll, csz], tag)
 
 
+def gen_histories(rng, nr, nc, fd, outlet):
+    """short call histories on ONE Catchment object, all inside the property's quantifier (valid cells, codes
+    from the usual alphabet). Steps: D delineate_area(outlet, inlets, nval) / F compute_flowpathlengths /
+    S edit catchment.flowdir.data in place / G assign catchment.flowdir.data / O edit the grid handed to the
+    constructor / U, W upstream, downstream / R delineate_river(catchment.flowdir) / K continue on a clone
+    (the original is then wiped) / P pickle round trip / E overwrite in place what the previous call returned."""
+    n = nr * nc
+    g = G(nr, nc, fd)
+    nv = n + 2
+    H = []
+    # candidates (outlet, inlets) by area size, to re-delineate with an area of EQUAL size
+    bysize = {}
+    cands = [(o, []) for o in range(n)] if n <= 36 else [(rng.randrange(n), []) for _ in range(30)]
+    a0, _ = g.area(outlet, [])
+    for u in a0[:8]:
+        if u != outlet:
+            cands.append((outlet, [u]))
+    for o, inl in cands:
+        a, cyc = g.area(o, inl)
+        if a and not cyc:
+            bysize.setdefault(len(a), []).append((o, inl, a))
+    pairs = []
+    for size, lst in bysize.items():
+        for i in range(len(lst)):
+            for j in range(len(lst)):
+                if i != j and (lst[i][0] != lst[j][0] or lst[i][2] != lst[j][2]):
+                    pairs.append((lst[i], lst[j]))
+    rng.shuffle(pairs)
+    for (o1, i1, _), (o2, i2, _) in pairs[:2]:
+        H.append(("equal_size", [["D", o1, i1 or None, nv], ["F"], ["D", o2, i2 or None, nv], ["F"]]))
+        H.append(("equal_size_scribble", [["D", o1, i1, nv], ["F"], ["E"], ["D", o2, i2, nv], ["E"], ["D", o2, i2, nv], ["F"]]))
+    others = [rng.randrange(n) for _ in range(2)]
+    # edit in place between calls
+    cell = rng.choice([c for c in a0 if c != outlet] or list(range(n)))
+    code = rng.choice(ALPHABET)
+    H.append(("edit_in_place", [["D", outlet, None, nv], ["F"], ["S", cell, code], ["D", outlet, None, nv], ["F"],
+                                ["S", cell, fd[cell]], ["D", outlet, [], nv], ["F"]]))
+    H.append(("edit_then_table", [["D", outlet, None, nv], ["S", cell, code], ["F"]]))
+    # a failed delineation in the middle (buffer one short, or a cycle through the outlet)
+    if len(a0) >= 2:
+        H.append(("failed_between", [["D", outlet, None, nv], ["F"], ["D", outlet, None, len(a0)], ["F"],
+                                     ["D", others[0], None, nv], ["F"]]))
+    # queries, with the returned arrays overwritten in between
+    cells = [rng.randrange(n) for _ in range(rng.randint(1, 4))]
+    H.append(("queries", [["U", cells], ["E"], ["W", cells], ["E"], ["U", cells], ["S", cell, code], ["U", cells], ["W", cells]]))
+    # clone / pickle
+    H.append(("clone", [["D", outlet, None, nv], ["F"], ["K"], ["F"], ["D", others[1], None, nv], ["F"], ["W", cells]]))
+    H.append(("pickle", [["D", outlet, None, nv], ["P"], ["F"], ["S", cell, code], ["P"], ["D", outlet, None, nv], ["F"]]))
+    # river before / after an edit, the caller's table overwritten
+    start = rng.choice(a0) if a0 else rng.randrange(n)
+    H.append(("river", [["R", start, n + 3], ["E"], ["R", start, n + 3], ["S", cell, code], ["R", start, n + 3],
+                        ["R", start, max(1, len(a0) // 2)]]))
+    # the grid handed to the constructor is not the catchment's grid
+    H.append(("original_grid", [["O", cell, code], ["D", outlet, None, nv], ["F"], ["O", outlet, 0], ["W", [cell, outlet]]]))
+    # the whole grid re-assigned (same shape)
+    fd2, o2 = tree_grid(rng, nr, nc)
+    H.append(("regenerated_grid", [["D", outlet, None, nv], ["F"], ["G", fd2], ["D", outlet, None, nv], ["F"],
+                                   ["D", o2, None, nv], ["F"], ["U", cells]]))
+    return H
+
+
 def gen_cases(ctx, cs):
     rng = ctx.rng
     th = ctx.thorough
@@ -597,6 +732,19 @@ def gen_cases(ctx, cs):
         n = nr * nc
         add_grid_cases(cs, rng, nr, nc, fd, "random", "py" if rng.random() < 0.4 else "x", False,
                        outlets=[rng.randrange(n) for _ in range(2)])
+    # ---- histories on one object
+    for it in range(ctx.scale(350, 3000)):
+        r = rng.random()
+        if r < 0.3:
+            nr, nc = rng.randint(1, 6), rng.choice([1, 2])
+        else:
+            nr, nc = rng.randint(1, 6), rng.randint(1, 6)
+        fd, outlet = tree_grid(rng, nr, nc, keep=rng.choice([1.0, 0.9, 0.7]))
+        if rng.random() < 0.3:
+            fd[outlet] = rng.choice([0, 7, 1, 4, 16, 64])
+        j = cs.grid(nr, nc, fd)
+        for name, steps in gen_histories(rng, nr, nc, fd, outlet):
+            cs.op(j, ["hist", "py", steps], "hist/" + name)
     # ---- malformed
     for it in range(ctx.scale(150, 1000)):
         nr, nc = rng.randint(1, 5), rng.randint(1, 5)
@@ -773,6 +921,10 @@ def process_block(ctx, state, jobs, tags):
                 else:
                     ctx.count(("fpath", gtok(job), str(op)), False, "fpath/error")
                     ctx.disagree("C06 fpath: the kernel returned an error code, the model has none", {"request": case, "impl": r})
+            elif kind == "hist":
+                mreq, mmeta = history_steps(ctx, etab, nrows, ncols, fd, op, r, case, tag)
+                reqs.append(f"hist {gtok(job)} {';'.join(mreq)}")
+                meta.append(("hist", case, mmeta))
             elif kind == "river":
                 start, nval, xll, yll, csz = op[2:7]
                 nv = 1000000 if nval is None else nval
@@ -817,6 +969,29 @@ def process_block(ctx, state, jobs, tags):
             a = ";".join(f"{int(x[1])},{C.f2h(x[2])}" for x in rows)
             b = ";".join(f"{m[0]},{canon_float(x[2], C.h2f(m[1]))}" for x, m in zip(rows, mrows)) if len(rows) == len(mrows) else rep
             ctx.compare("C06 fpath", case, a, b)
+        elif what == "hist":
+            parts = rep.split("|")
+            if len(parts) != len(impl):
+                ctx.compare("C06 hist", case, f"{len(impl)} replies", rep[:300])
+                continue
+            for (i, skind, istr, rows), mrep in zip(impl, parts):
+                c2 = {**case, "step": i}
+                if mrep.startswith("err:"):
+                    mrep = "err:err" if istr == "err:err" else "err:" + MODEL_ERR.get(mrep[4:], mrep[4:])
+                elif skind in ("D",):
+                    mrep = "ok:" + C.ilist(sorted(int(t) for t in C.parse_list(mrep[3:])))
+                elif skind == "U":
+                    rr = mrep[3:].strip("[]").split(";") if mrep != "ok:[]" else []
+                    mrep = "ok:" + ";".join(C.ilist(sorted(int(t) for t in row.split(","))) for row in rr)
+                elif skind in ("F", "R") and rows is not None:
+                    mrows = [t.split(",") for t in mrep[3:].strip("[]").split(";")] if mrep != "ok:[]" else []
+                    if skind == "F":
+                        mrows.sort(key=lambda m: int(m[0]))
+                        if len(mrows) == len(rows):
+                            mrep = "ok:" + ";".join(f"{m[0]},{m[1]},{canon_float(x[2], C.h2f(m[2]))}" for x, m in zip(rows, mrows))
+                    elif len(mrows) == len(rows):
+                        mrep = "ok:" + ";".join(f"{m[0]},{canon_float(x[1], C.h2f(m[1]))},{m[2]},{m[3]}" for x, m in zip(rows, mrows))
+                ctx.compare("C06 hist/" + skind, c2, istr, mrep)
         elif what == "river":
             r = impl
             if "err" in r:
@@ -839,6 +1014,93 @@ def process_block(ctx, state, jobs, tags):
     for (case, r), rep in zip(meta2, replies2):
         ctx.compare("C06 filled", case, C.ilist(sorted(r["filled"])), C.ilist(sorted(int(t) for t in C.parse_list(rep))))
         oracle_filled(ctx, case, r)
+
+
+def history_steps(ctx, etab, nrows, ncols, fd0, op, r, case, tag):
+    """oracle on every step of a history (evaluated on the state the object has NOW) and the model request.
+    -> (model step tokens, [(step index, kind, canonical impl reply, rows or None)])"""
+    steps, res = op[2], r.get("steps", [])
+    cur = list(fd0)
+    g = G(nrows, ncols, cur)
+    outlet, area, area_ok = None, None, False
+    mreq, mmeta = [], []
+    n = nrows * ncols
+    if len(res) != len(steps):
+        ctx.disagree("C06 hist: the worker returned a wrong number of step replies", {"request": case})
+        return ["F"], []
+    for i, (st, rr) in enumerate(zip(steps, res)):
+        k = st[0]
+        c2 = {**case, "step": i}
+        name = tag.split("/")[-1]
+        if k == "D":
+            o, inl, nval = st[1], st[2] or [], st[3]
+            outlet = o
+            oracle_area(ctx, g, ["area", "py", o, inl, nval], rr, c2, f"hist.{name}", nval)
+            area_ok = "ok" in rr
+            area = rr.get("ok")
+            if "filled" in rr:
+                oracle_filled(ctx, c2, rr)
+            istr = "ok:" + C.ilist(sorted(rr["ok"])) if "ok" in rr else "err:" + etab.get(rr.get("err"), "err")
+            mreq.append(f"D:{o}:{C.ilist(inl)}:{nval}")
+            mmeta.append((i, "D", istr, None))
+        elif k == "F":
+            if "ok" in rr:
+                rows = sorted(rr["ok"], key=lambda x: x[0])
+                cells = [int(x[0]) for x in rr["ok"]]
+                if area_ok and outlet is not None:
+                    if cells != area:
+                        ctx.finding("fpath/start_column", "flowpathlengths does not list the cells of the area delineated last, "
+                                    "in order (a table of an earlier delineation?)", {**c2, "cells": cells, "area": area})
+                    else:
+                        # a delineated area of an unedited grid is checked as such; after an edit only the chain facts hold
+                        exp_, cyc_ = g.area(outlet, [])
+                        oracle_fpath(ctx, g, outlet, cells, rr["ok"], c2, f"hist.{name}/fp=hist",
+                                     natural=False)
+                else:
+                    ctx.finding("fpath/table_without_area", "compute_flowpathlengths answers although the last delineation "
+                                "failed (or none was made)", c2)
+                istr = "ok:" + ";".join(f"{int(x[0])},{int(x[1])},{C.f2h(x[2])}" for x in rows)
+                mmeta.append((i, "F", istr, rows))
+            else:
+                ctx.count(("hist", str(c2)), False, "hist/F/error")
+                if area_ok and "err" in rr:
+                    exp_, cyc_ = g.area(outlet, []) if valid(n, outlet) else ([], True)
+                    if not cyc_:
+                        ctx.finding("fpath/error_on_area", "compute_flowpathlengths raises on a delineated area", {**c2, "impl": rr})
+                mmeta.append((i, "F", "err:err", None))
+            mreq.append("F")
+        elif k in ("S", "G", "O", "K", "P", "E"):
+            if "err" in rr:
+                ctx.disagree(f"C06 hist: step {k} raised", {"request": c2, "impl": rr})
+            if k == "S":
+                cur[st[1]] = st[2]
+                g = G(nrows, ncols, cur)
+                mreq.append(f"S:{st[1]}:{st[2]}")
+                mmeta.append((i, "S", "-", None))
+            elif k == "G":
+                cur = list(st[1])
+                g = G(nrows, ncols, cur)
+                mreq.append(f"G:{C.ilist(cur)}")
+                mmeta.append((i, "G", "-", None))
+        elif k == "W":
+            oracle_down(ctx, g, ["down", "py", st[1]], rr, c2, f"hist.{name}")
+            istr = "ok:" + C.ilist(rr["ok"]) if "ok" in rr else "err:" + etab.get(rr.get("err"), "err")
+            mreq.append(f"W:{C.ilist(st[1])}")
+            mmeta.append((i, "W", istr, None))
+        elif k == "U":
+            oracle_up(ctx, g, ["up", "py", st[1]], rr, c2, f"hist.{name}")
+            istr = "ok:" + ";".join(C.ilist(sorted(row)) for row in rr["ok"]) if "ok" in rr else "err:" + etab.get(rr.get("err"), "err")
+            mreq.append(f"U:{C.ilist(st[1])}")
+            mmeta.append((i, "U", istr, None))
+        elif k == "R":
+            oracle_river(ctx, g, ["river", "py", st[1], st[2], 0.0, 0.0, 1.0], rr, c2, f"hist.{name}", st[2])
+            if "ok" in rr:
+                istr = "ok:" + ";".join(f"{int(x[0])},{C.f2h(x[1])},{int(x[2])},{int(x[3])}" for x in rr["ok"])
+                mmeta.append((i, "R", istr, rr["ok"]))
+            else:
+                mmeta.append((i, "R", "err:" + etab.get(rr.get("err"), "err"), None))
+            mreq.append(f"R:{st[1]}:{st[2]}")
+    return mreq or ["F"], mmeta if mreq else [(0, "F", "err:err", None)]
 
 
 # =============================================================================================
